@@ -103,8 +103,15 @@ class Slots:
                     self.seq_switches.append((b.name, bb, sbb, tt, ft))
                     cfg = ctx.cfg(b)
                     true_only = cfg.reach(tt) - cfg.reach(ft)
+                    # calls on the sequential-only route, and calls inside the closures that are built there
+                    # (`filled_by(self, |vec| seq_kernel(iter, map, filter, vec))`)
+                    seq_calls = [b.blocks[x]['term'] for x in sorted(true_only)]
                     for x in sorted(true_only):
-                        tx = b.blocks[x]['term']
+                        for st in b.blocks[x].get('stmts', []):
+                            rv = st.get('rv') or {}
+                            if rv.get('r') == 'agg' and rv.get('ak') == 'closure' and rv.get('def') in F.bodies:
+                                seq_calls.extend(t_ for _, t_ in F.bodies[rv['def']].calls())
+                    for tx in seq_calls:
                         if tx['t'] == 'call' and tx.get('local') and callee_of(tx) in F.bodies:
                             k = callee_of(tx)
                             # a sequential kernel is where the concurrent iterator is turned back into its sequential iterator;
@@ -210,7 +217,12 @@ class Slots:
             if h.startswith('param:') and not ty.lstrip('&').strip() in callee.fn_bounds() and 'Params' not in ty:
                 # a type parameter that is not a closure: the iterator (I) - element / output types never appear as bare parameters
                 nm = (callee.local_name(l) or '')
-                if nm in ('iter', 'con_iter', 'source') or h[6:] in ('I', 'Iter', 'C'):
+                tp = h[6:]
+                # ... and is used as a concurrent iterator somewhere in the signature or the body (`<I as ConcurrentIterX>::Item`)
+                probe = '<%s as orx_concurrent_iter::' % tp
+                used = any(probe in (fb.get('inputs') or '') or probe in (fb.get('output') or '') for fb in callee.fn_bounds().values()) or \
+                    any(probe in (lc.get('ty') or '') for lc in callee.locals.values()) or probe in (callee.d.get('ret_ty') or '')
+                if nm in ('iter', 'con_iter', 'source') or (tp in ('I', 'Iter', 'C') and used):
                     return True
         return False
 
